@@ -350,6 +350,27 @@ mod imp {
                     Result::Err(_) => "err".to_string(),
                 }
             }
+            // api-coverage: `Serialize for Sign` / `Deserialize for Sign` on their own (public impls of a public
+            // type; above they are only reached as the first tuple field of a BigInt)
+            ("sign.ser", [s]) => {
+                let mut it = s.chars();
+                let sg = parse_sign(it.next()?)?;
+                if it.next().is_some() {
+                    return None;
+                }
+                let mut r = Rec { toks: vec![] };
+                match sg.serialize(&mut r) {
+                    Ok(()) => format!("ok {}", r.toks.join(";")),
+                    Result::Err(_) => "err".to_string(),
+                }
+            }
+            ("sign.de", [v]) => {
+                let t = Tok::I(v.parse::<i64>().ok()?);
+                match num_bigint::Sign::deserialize(De(&t)) {
+                    Ok(s) => format!("ok {}", show_sign(s)),
+                    Result::Err(_) => "err".to_string(),
+                }
+            }
             _ => return None,
         })
     }
